@@ -23,6 +23,7 @@ EXPLANATION = ("Protocol rules over Multiprocessor.filter, its two completion ca
                "worker either restarts or decrements; worker exceptions are collected and re-raised; the finally stops the "
                "loader and drains both queues on every exit including abandonment (CFG path check); the per-child limit "
                "sits between unpickler and filter; the single-process arm applies the same Foreach(filter).")
+EXPLANATION += ' R7: every handler around the worker line reports what it caught, emptiness is decided from the peeked stream; R8: the failure report always arrives (three known findings).'
 
 PMP = "coba/pipes/multiprocessing.py"
 SRC = "coba/pipes/sources.py"
